@@ -68,6 +68,8 @@ pub fn ecm_semiprime(n: u64) -> Option<(u64, u64)> {
 }
 
 fn ecm(n: u128, curves: usize, b1: u64, b2: f64, v: Verbosity) -> Option<(u128, u128)> {
+    #[cfg(yamaquasi_verif)]
+    crate::params::verif_strategy_record("ecm128", curves as u64, b1, b2);
     let zn = ZmodN::new(Uint::from(n));
     let suyama = ecm::Suyama11::new(&zn).unwrap();
     let sb = ecm::SmoothBase::new(b1 as usize, false);
